@@ -1,4 +1,5 @@
 import GnoVerif.Model.C02RunTx
+import GnoVerif.Model.C02Vm
 import GnoVerif.Proofs.C02RunTx
 /-!
 # C02 — transactions are atomic
@@ -21,9 +22,14 @@ every block-meter state and every context meter.
 
 NOT proved here (residual, see props/C02.json): that the real gno.land message
 handlers keep all their mutable state inside the multistore and the gno
-transaction store — the statement's clause about the VM's in-memory caches is
-covered only by the harness' hook-committed side cache, and storage-deposit
-failures only as "a message handler returned an error / panicked".
+transaction store.  The statement's clause about the VM's in-memory caches, Gno
+panics, out-of-gas inside Gno code and storage-deposit failures in the real VM
+keeper are covered by the SECOND correspondence stream only (differential
+replay through the real gno.land application, harness/cmd/c02/vm.go), whose
+verdict is an oracle on real store dumps.  The `vm_summary_*` theorems at the
+end of this file are about the thin summary model that stream is also compared
+with (Model/C02Vm.lean): they say that the summary the real application must
+reproduce line by line is itself "failed ⇒ only the ante effect".
 -/
 namespace GnoVerif.C02
 open GnoVerif.C10
@@ -190,5 +196,46 @@ example : (runTx .deliver
 /-- a succeeding tx: hypotheses of `deliver_ok_all_effects` -/
 example : (runTx .deliver witnessTx [] (.infinite 0) (.infinite 0) []).res = .ok ∧
     (runTx .deliver witnessTx [] (.infinite 0) (.infinite 0) []).crash = false := by decide
+
+/-! ## second stream: the summary model of real gno.land histories
+
+`Model/C02Vm.lean` is what the real application's ABCI-visible state (counters of
+two realms, deployed packages and their version, token balances, sequence
+numbers) is compared with after every line of a history.  These theorems state
+that this reference is the property statement: for EVERY summary state and every
+message list, a failed delivery leaves everything but the signers' sequence
+numbers untouched, a successful one applies every message, a simulation nothing. -/
+
+/-- summary model: a failed tx moves nothing but the signers' sequence numbers -/
+theorem vm_summary_failed_only_sequence (s : Vm.VState) (msgs : List Vm.VMsg) (e : Vm.VErr)
+    (h : (Vm.deliver s msgs).1 = some e) :
+    Vm.runMsgs s msgs = .error e ∧ (Vm.deliver s msgs).2 = Vm.bumpSeq s msgs := by
+  unfold Vm.deliver at h ⊢
+  cases hr : Vm.runMsgs s msgs with
+  | ok s' => rw [hr] at h; cases h
+  | error e' => rw [hr] at h; cases h; exact ⟨rfl, rfl⟩
+
+/-- summary model: a successful tx applies the effects of all its messages -/
+theorem vm_summary_ok_all_effects (s : Vm.VState) (msgs : List Vm.VMsg)
+    (h : (Vm.deliver s msgs).1 = none) :
+    ∃ s', Vm.runMsgs s msgs = .ok s' ∧ (Vm.deliver s msgs).2 = Vm.bumpSeq s' msgs := by
+  unfold Vm.deliver at h ⊢
+  cases hr : Vm.runMsgs s msgs with
+  | ok s' => exact ⟨s', rfl, rfl⟩
+  | error e' => rw [hr] at h; cases h
+
+/-- summary model: a simulated tx has no effect, whatever its outcome -/
+theorem vm_summary_simulate_no_effect (s : Vm.VState) (msgs : List Vm.VMsg) :
+    (Vm.simulate s msgs).2 = s := by
+  unfold Vm.simulate
+  cases Vm.runMsgs s msgs <;> rfl
+
+/-- the hypothesis of `vm_summary_failed_only_sequence` is met: a tx that deploys
+a package and an importer of it and then calls a panicking function of a deployed
+realm fails with `panic`; the same without the last message succeeds. -/
+example : (Vm.deliver { ca := some 5 }
+    [.dep 0 .lib 1 false, .dep 0 .use 1 false, .call 0 .ca .incpanic 1 false]).1 = some .panic := by decide
+
+example : (Vm.deliver { ca := some 5 } [.dep 0 .lib 1 false, .dep 0 .use 1 false]).1 = none := by decide
 
 end GnoVerif.C02
